@@ -70,6 +70,19 @@ template <class T> static void behaves_like(T &obj, const char *cls, const char 
         ascon::byte_array shortc(9, 0); bp = ascon::byte_array(7, 0x11);
         if (obj.decrypt(bp, shortc) || bp.size() != 0) { hx_fail(kb, "decrypt(byte_array) of a packet shorter than the tag must fail with an empty result"); return; }
         if (obj.decrypt(pt, exp, 9, 0, 0) >= 0) { hx_fail(kb, "decrypt(ptr) of a packet shorter than the tag must fail"); return; }
+        /* documented in aead.h: the nonce is not incremented if decryption fails, and is after a success: forged, genuine, then the next packet, without touching the nonce */
+        {
+            unsigned char forged[96], n1[16], exp2[96]; memcpy(forged, exp, ml + 16); forged[ml + 2] ^= 0x10;
+            obj.set_nonce(NONCE, 16);
+            if (obj.decrypt(pt, forged, ml + 16, adl ? ADB : 0, adl) >= 0) { hx_fail(kb, "decrypt(ptr) accepted a forged tag"); return; }
+            if (obj.decrypt(pt, 0, 3, 0, 0) >= 0) { hx_fail(kb, "decrypt(ptr) of 3 bytes must fail"); return; }
+            r = obj.decrypt(pt, exp, ml + 16, adl ? ADB : 0, adl);
+            if (r != (int)ml || memcmp(pt, MSG, ml)) { hx_fail(kb, "after two refused packets the genuine packet for the same nonce is not decrypted (result %d): the nonce moved on failure (adlen=%zu mlen=%zu)", r, adl, ml); return; }
+            memcpy(n1, NONCE, 16); for (int i = 15; i >= 0; i--) if (++n1[i]) break;
+            c_encrypt(fam, alg, key, n1, ADB, adl, MSG, ml, exp2);
+            r = obj.encrypt(out, MSG, ml, adl ? ADB : 0, adl);
+            if (r != (int)ml + 16 || memcmp(out, exp2, ml + 16)) { hx_fail(kb, "packet after a successful decryption is not the C result under nonce+1 (adlen=%zu mlen=%zu)", adl, ml); return; }
+        }
     }
     hx_stat("nontrivial", 1);
 }
